@@ -4,7 +4,7 @@ EXTRACT_V = "ExtractNode.v"
 MODEL_DEPS = ["Base/Bytes.v", "DM/Value.v", "Node/Basic.v"]
 DRIVER = "c01_driver"
 HARNESS = "c01"
-COUNTS = {"quick": 1500, "thorough": 60000}
+COUNTS = {"quick": 3000, "thorough": 40000}
 DESIGN_REF = "DESIGN.md §4 C01"
 TECHNIQUE = ("Coq proof (refinement of assembler scripts to the abstract value, invariant m = t, wrong-kind table, "
              "DeepEqual/Copy laws) + differential run of the extracted model of basicnode against the real assemblers and readers")
@@ -30,14 +30,20 @@ RULE = ("values from the structured generator (all nine kinds, int64 boundaries 
 
 
 def classify(fs):
+    if fs[1] == "probe":
+        return "probe"
     v = fs[3][:1]
     shape = {"m": "map", "a": "list"}.get(v, "scalar")
     return shape + ":" + fs[2] + (":assignnode" if "XN" in fs[4] else "")
 
 
 def nontrivial(fs):
+    if fs[1] == "probe":
+        return False
     return len(fs[4]) > 12
 
 
 def input_key(fs):
+    if fs[1] == "probe":
+        return fs[2]
     return "\t".join(fs[2:5])
